@@ -385,6 +385,23 @@ func c15EvalE2E(t *fw.T, c *fw.Case) {
 		t.Violation("spelling-catalog:"+host, fmt.Sprintf("text %q: the catalogs of the bare and the parenthesised spelling differ: %s", src, jsonx.Diff(db.Root, dp.Root, "$")))
 		return
 	}
+	// the same bare text as the very last bytes of the file (no line end after it)
+	if host != "tag" && !strings.HasSuffix(src, "\n") && !strings.HasSuffix(src, "\r") {
+		eofDoc := strings.TrimSuffix(c15HostDocF(host, src, 0), "\n")
+		oe := t.Exec(run.Single([]byte(eofDoc)))
+		t.Count("e2e_at_end_of_file_checked")
+		fe := ""
+		if oe.Outcome == run.Accepted {
+			if de, err := jsonx.Parse(oe.JSON); err == nil {
+				fe, _ = c15HostField(host, de.Root)
+			}
+		}
+		if oe.Outcome != run.Accepted || fe != fb {
+			c.Docs = []run.Doc{run.Single([]byte(eofDoc)), c.Docs[1]}
+			t.Violation("spelling-text-at-end-of-file:"+host, fmt.Sprintf("text %q as the last bytes of the file: %s (description %q); in parentheses %q", src, describe(oe), fe, fp))
+			return
+		}
+	}
 	if hookOK && fb != hookRes {
 		t.Violation("catalog-vs-normaliser:"+host, fmt.Sprintf("text %q: catalog has %q, the normaliser alone gives %q", src, fb, hookRes))
 		return
@@ -406,6 +423,15 @@ var c15AnnHosts = []string{"type", "method", "response", "server", "tag", "enum"
 func c15StreamAnnotation(t *fw.T, shard, nshards int, emit func(*fw.Case)) {
 	maxLen := t.Pick(4, 6)
 	n := 0
+	// the empty annotation in every host: the opening is directly followed by the line end
+	for _, h := range c15AnnHosts {
+		n++
+		if n%nshards != shard {
+			emit(nil)
+			continue
+		}
+		emit(&fw.Case{Meta: map[string]string{"text": "", "host": h}, Docs: []run.Doc{{}}})
+	}
 	enumerate(c15AnnSymbols, maxLen, func(s string) {
 		n++
 		if n%nshards != shard {
@@ -497,6 +523,24 @@ func c15EvalAnnotation(t *fw.T, c *fw.Case) {
 	}
 	want := collapseWS(src)
 	if want == "" {
+		// a blank annotation (nothing, or only blanks, after the opening) is no annotation: the same catalog as without it,
+		// in both spellings, glued to the opening or not - and what follows on the next line is still read
+		if blockMode {
+			return
+		}
+		t.Count("blank_annotations_checked")
+		none := run.Single([]byte(c15AnnDoc(host, "")))
+		on := t.Exec(none)
+		for _, sp := range []string{"//" + src, "/*" + src + "*/", "// " + src, "/* " + src + " */"} {
+			d := run.Single([]byte(c15AnnDoc(host, sp)))
+			o := t.Exec(d)
+			if o.Outcome != on.Outcome || string(o.JSON) != string(on.JSON) {
+				c.Docs = []run.Doc{none, d}
+				t.Violation("blank-annotation-changes-result:"+host, fmt.Sprintf("a blank annotation %q changes the result: without %s | with %s\n%s", sp, describe(on), describe(o), c15AnnDoc(host, sp)))
+				return
+			}
+		}
+		t.Distinct("ann blank " + host)
 		return
 	}
 	t.Count("annotations_checked")
